@@ -1028,7 +1028,12 @@ class DirectoryContentsTask : public Task {
       if (llvm::sys::fs::is_symlink_file(*it->status())) {
         SmallString<256> resolvedPath;
         if (!llvm::sys::fs::real_path(it->path(), resolvedPath)) {
-          if (path.startswith(resolvedPath)) {
+          // Only the directory itself or one of its ancestors: a mere string
+          // prefix ("/a/sub" of "/a/sub2") is a different directory.
+          StringRef resolved = resolvedPath;
+          if (path.startswith(resolved) &&
+              (path.size() == resolved.size() || resolved.endswith("/") ||
+               llvm::sys::path::is_separator(path[resolved.size()]))) {
             continue;
           }
         }
